@@ -1,10 +1,10 @@
-\* C40 leg A thorough: encoder cap K = 3; 2 series on any non-empty subset of a 6-point grid, one
-\* or two chunks each (36 864 pairs + 192 byte-identical pairs)
+\* C40 leg A thorough: encoder cap K = 3; 2 series on any non-empty subset of a 5-point grid, one
+\* or two chunks each (6 400 pairs + 80 byte-identical pairs)
 SPECIFICATION Spec
 CONSTANTS InitPen = 1
           K = 3
-          Grid = {0, 1, 2, 3, 4, 5}
+          Grid = {0, 1, 2, 3, 4}
           NSeries = 2
-          MaxLen = 6
+          MaxLen = 5
 INVARIANTS C40_EveryAggregateSampleKept EachChunkComplete NothingInvented ChunksInOrder OnlyDoneIsFinal
 CHECK_DEADLOCK FALSE
